@@ -91,7 +91,7 @@ def load_known() -> List[dict]:
     return json.loads(KNOWN.read_text()).get("findings", [])
 
 
-def run_property(prop: str, tier: str, rules_fn: Callable, A_factory: Callable, meta: dict) -> int:
+def run_property(prop: str, tier: str, rules_fn: Callable, A_factory: Callable, meta: dict, thorough_fn: Optional[Callable] = None) -> int:
     """Runs the rule set of one property, writes evidence, prints the verdict
     lines and returns the exit code (0 pass, 1 violation, 2 analysis error)."""
     t0 = time.time()
@@ -116,6 +116,17 @@ def run_property(prop: str, tier: str, rules_fn: Callable, A_factory: Callable, 
     except Exception:  # a traceback must never look like a verdict
         print("ANALYSIS-ERROR property=%s internal error\n%s" % (prop, traceback.format_exc()))
         return 2
+
+    extra_cov: Dict[str, Any] = {}
+    if tier == "thorough" and thorough_fn is not None and not rep.violations:
+        try:
+            extra_cov = thorough_fn(A, rep) or {}
+        except AnalysisError as ex:
+            print("ANALYSIS-ERROR property=%s %s" % (prop, ex))
+            return 2
+        except Exception:
+            print("ANALYSIS-ERROR property=%s internal error in the thorough tier\n%s" % (prop, traceback.format_exc()))
+            return 2
 
     known = [k for k in load_known() if k.get("property") == prop and k.get("status") == "known"]
     unlisted, listed = [], []
@@ -165,6 +176,7 @@ def run_property(prop: str, tier: str, rules_fn: Callable, A_factory: Callable, 
         "wall_s": round(time.time() - t0, 3),
         "violations": len(rep.violations),
     }
+    evidence["coverage"].update(extra_cov)
     ev_path.write_text(json.dumps(evidence, indent=1, sort_keys=False, default=str) + "\n")
 
     print("%s tier=%s obligations=%d discharged=%d violated=%d unknown=%d functions=%d callsites=%d wall=%.2fs" % (
